@@ -40,6 +40,20 @@ ScaleRound(j, w, T) ==
         k == (w - 1) - r[2]
         q == IF k <= 0 THEN r[1] * Pow2(-k) ELSE RHE(r[1], k)
     IN SignOf(j) * q
+\* 24 and 32 bit targets, normalisation on, clipping off, x = m * 2^e with |x| < 1 (the product m * (2^(w-1) - 1) does not fit TLC's
+\* integers in general, so the rule is evaluated in a form that does, for inputs the generator keeps inside these preconditions):
+\*  float, w = 32 : the scale 2^31 - 1 is not a float, (float) 0x7FFFFFFF is 2^31: the stored code is the nearest integer to x * 2^31
+\*  float, w = 24 : |m| <= 255: product m * (2^23 - 1) rounded to 24 significant bits (float multiplication), then nearest integer
+\*  double        : x on the grid 2^-(w-1) (and m of at most 22 bits for w = 32, so that the double product is exact):
+\*                  x * (2^(w-1) - 1) = A - x with A = x * 2^(w-1) an integer: A when |x| <= 1/2, one step towards zero otherwise
+ScaleWide(d, w, T) ==
+    LET m == d[1]  e == d[2]  a == Abs(m) IN
+    IF m = 0 THEN 0
+    ELSE IF T = "f" /\ w = 32 THEN (IF e + 31 >= 0 THEN m * Pow2(e + 31) ELSE SignOf(m) * RHE(a, -(e + 31)))
+    ELSE IF T = "f" THEN LET n == a * (Pow2(w - 1) - 1)  r == RoundSig(n, 24)  k == -(r[2] + e) IN
+                         SignOf(m) * (IF k <= 0 THEN r[1] * Pow2(-k) ELSE RHE(r[1], k))
+    ELSE LET A == m * Pow2(e + w - 1) IN
+         IF BitLen(a) + e >= 0 /\ ~(a = 1 /\ e = -1) THEN A - SignOf(m) ELSE A
 MaxCode(w) == IF w = 32 THEN 2147483647 ELSE Pow2(w - 1) - 1
 MinCode(w) == IF w = 32 THEN -2147483647 - 1 ELSE -Pow2(w - 1)
 CodeOfFloat(T, w, d, norm, clip) ==
@@ -51,7 +65,7 @@ CodeOfFloat(T, w, d, norm, clip) ==
               IF k <= 0 THEN GridJ(d, w)
               ELSE LET q == SignOf(d[1]) * RHE(Abs(d[1]), k) IN
                    IF q > MaxCode(w) THEN MaxCode(w) ELSE IF q < MinCode(w) THEN MinCode(w) ELSE q    \* rounding up to 2^(w-1) saturates too
-    ELSE ScaleRound(GridJ(d, w), w, T)
+    ELSE IF w <= 16 THEN ScaleRound(GridJ(d, w), w, T) ELSE ScaleWide(d, w, T)
 
 ExpCode(T, sub, v, norm, clip) ==
     LET w == Width(sub) IN
